@@ -404,12 +404,13 @@ func TestC07Sched(t *testing.T) {
 	}, runC07)
 }
 
-// TestC07Enum enumerates the honest configurations (1, 2, 3, 5, 6 of c03EnumConfigs) for C07.
+// TestC07Enum enumerates the honest configurations (1, 2, 3, 5 of c03EnumConfigs) for C07.
 func TestC07Enum(t *testing.T) {
 	var cfgs []SyncScenario
 	for i := range c03EnumConfigs {
 		c := c03EnumConfigs[i]
-		honest := true
+		// (the two concurrent Head() callers with bifurcation, 36 million schedules, are enumerated once, under C03)
+		honest := c.Span == 0
 		for _, a := range c.Actors {
 			if a.Adv != "" {
 				honest = false
